@@ -10,11 +10,14 @@ pub const RULE: &str = "cases: getter family compiled with emit_rule_reference -
 
 pub fn check_input(ctx: &mut Ctx, gi: &GInfo, rule: usize, input: &str) -> CaseResult {
     let name = gi.rules[rule].0.clone();
-    let getters: Vec<String> = getter_list(gi.ir).into_iter().filter(|(i, _)| *i == rule).map(|(_, n)| n).collect();
+    let optimised = !gi.g.options().contains("pest_optimizer = false");
+    let getters: Vec<String> = crate::getters::getter_list_for(gi.ir, optimised).into_iter().filter(|(i, _)| *i == rule).map(|(_, n)| n).collect();
     if getters.is_empty() {
         return CaseResult::Ok;
     }
-    let r = interp::run(gi.ir, &Cfg { optimised: true, ..Cfg::default() }, &name, input, 0, input.len());
+    // without the optimizer the node types follow the raw AST, `e+` is the runtime's own
+    // at-least-once repetition (finding K6 describes the behavioural side of that)
+    let r = interp::run(gi.ir, &Cfg { optimised, native_plus: !optimised, ..Cfg::default() }, &name, input, 0, input.len());
     let (_, deriv) = match r.matched() {
         Some(m) => m,
         None => {
@@ -32,7 +35,7 @@ pub fn check_input(ctx: &mut Ctx, gi: &GInfo, rule: usize, input: &str) -> CaseR
         NK::Rule { .. } => &deriv.kids[0],
         _ => return CaseResult::Ok,
     };
-    let expr = &gi.ir.opt[rule].expr;
+    let expr = if optimised { &gi.ir.opt[rule].expr } else { &gi.ir.raw[rule].expr };
     for x in getters {
         ctx.ev.eval();
         let ty = match gtype(expr, &x) {
@@ -120,7 +123,7 @@ pub fn run(world: &World, ctx: &mut Ctx) -> Option<Value> {
     ctx.ev.extra.insert("cases_per_pair".into(), json!(n));
     let mut getters = 0;
     for gi in world.grammars.iter().filter(|g| g.g.family() == "getter") {
-        getters += getter_list(gi.ir).len();
+        getters += crate::getters::getter_list_for(gi.ir, !gi.g.options().contains("pest_optimizer = false")).len();
     }
     ctx.ev.extra.insert("getters_probed".into(), json!(getters));
     for (gi, rule) in pairs {
